@@ -465,6 +465,16 @@ def run_model_shapefns(ctx):
         for a_, b_ in itertools.product(range(nd + 1), repeat=2):
             one({"fn": "moveaxis", "src": a_, "dst": b_}, lambda a, a_=a_, b_=b_: numpy.moveaxis(a, a_, b_), sh)
             one({"fn": "swapaxes", "a": a_, "b": b_}, lambda a, a_=a_, b_=b_: numpy.swapaxes(a, a_, b_), sh)
+        # moveaxis with sequences of axes: every pair of equally long duplicate-free sequences, and a few that numpy rejects
+        for k in range(0, nd + 1):
+            for src in itertools.permutations(range(nd), k):
+                for dst in itertools.permutations(range(nd), k):
+                    if nd == 3 and k == 3 and (sum(src) + 2 * sum(i * d for i, d in enumerate(dst))) % 3:
+                        continue        # a third of the 36 full permutation pairs is enough
+                    one({"fn": "moveaxis_seq", "src": list(src), "dst": list(dst)}, lambda a, src=src, dst=dst: numpy.moveaxis(a, src, dst), sh)
+        if nd >= 2:
+            for src, dst in (([0, 0], [0, 1]), ([0, 1], [1, 1]), ([0], [0, 1]), ([0, nd], [1, 0]), ([0, 1], [0, nd])):
+                one({"fn": "moveaxis_seq", "src": src, "dst": dst}, lambda a, src=src, dst=dst: numpy.moveaxis(a, src, dst), sh)
         for ax in range(nd + 2):
             one({"fn": "expand_dims", "axis": ax}, lambda a, ax=ax: numpy.expand_dims(a, ax), sh)
             for k in (1, 2, 3) if nd else ():       # numpy.repeat treats a 0-d operand as 1-d; repeatF requires axis < ndim
